@@ -82,6 +82,13 @@ func Assert(c bool, label string) {
 	}
 }
 
+// AssertNoErr is Assert(err == nil, label) that keeps the error text for the report.
+func AssertNoErr(err error, label string) {
+	if err != nil {
+		panic("VERIF-ASSERT " + label)
+	}
+}
+
 // Fail is an assertion that is violated whenever it is reached.
 func Fail(label string) { panic("VERIF-ASSERT " + label) }
 
@@ -97,6 +104,9 @@ func ObserveBytes(name string, b []byte) {
 
 // Symbolic reports whether the harness is being executed by the engine.
 func Symbolic() bool { return false }
+
+// Thorough reports whether the thorough tier is running (larger bounds).
+func Thorough() bool { return os.Getenv("VERIF_TIER") == "thorough" }
 
 // AllocBudget sets the largest allocation (in elements) a path may request
 // from a size that is not a constant; the engine turns a larger feasible
